@@ -123,12 +123,103 @@ def SegsOk (segs : List (List Char)) : Prop :=
 def WildcardMatch (base acc : List (List Char)) : Prop :=
   ∃ extra, extra ≠ [] ∧ acc = extra ++ base
 
-/-- every required attribute has a match among the account's attributes -/
+/-- `WildcardMatch`, computed: `acc` is strictly longer than `base` and ends with it. -/
+def wildcardMatchB (base acc : List (List Char)) : Bool :=
+  decide (base.length < acc.length) && (acc.drop (acc.length - base.length) == base)
+
+theorem wildcardMatchB_iff (base acc : List (List Char)) :
+    wildcardMatchB base acc = true ↔ WildcardMatch base acc := by
+  unfold wildcardMatchB WildcardMatch
+  simp only [Bool.and_eq_true, decide_eq_true_eq, beq_iff_eq]
+  constructor
+  · rintro ⟨hlt, hd⟩
+    refine ⟨acc.take (acc.length - base.length), ?_, ?_⟩
+    · intro h
+      have := congrArg List.length h
+      simp only [List.length_take, List.length_nil] at this
+      omega
+    · have h := (List.take_append_drop (acc.length - base.length) acc).symm
+      rw [hd] at h; exact h
+  · rintro ⟨extra, hne, rfl⟩
+    have : 0 < extra.length := List.length_pos_iff.2 hne
+    refine ⟨by simp only [List.length_append]; omega, ?_⟩
+    have e : (extra ++ base).length - base.length = extra.length := by
+      simp only [List.length_append]; omega
+    rw [e, List.drop_left]
+
+instance (base acc : List (List Char)) : Decidable (WildcardMatch base acc) :=
+  decidable_of_iff _ (wildcardMatchB_iff base acc)
+
+/-- the required attribute starts with the wildcard level `*.` -/
+def isWild (r : String) : Bool := ['*', '.'].isPrefixOf r.toList
+
+/-- a valid (normalised) name: non-empty, dot-free, non-empty segments
+(x/name `IsValidName`, as far as the matching rule depends on it) -/
+def NameOk (s : String) : Prop := SegsOk (splitDots s.toList)
+
+/-- a valid required attribute (x/exchange `IsValidReqAttr`): a valid name, optionally behind
+one leading wildcard level `*.` -/
+def ReqOk (r : String) : Prop :=
+  if isWild r then SegsOk (splitDots (r.toList.drop 2)) else SegsOk (splitDots r.toList)
+
+instance (segs : List (List Char)) : Decidable (SegsOk segs) := by unfold SegsOk; exact inferInstance
+instance (s : String) : Decidable (NameOk s) := by unfold NameOk; exact inferInstance
+instance (r : String) : Decidable (ReqOk r) := by unfold ReqOk; exact inferInstance
+
+/-- **The documented match**, on segments and independent of `IsReqAttrMatch`: a required
+attribute `*.b` is matched by the names `y₁.….yₖ.b` with k ≥ 1 extra leading levels (whole
+segments); any other (non-empty) required attribute is matched by itself only. -/
+def DocMatch (r a : String) : Prop :=
+  if isWild r then WildcardMatch (splitDots (r.toList.drop 2)) (splitDots a.toList)
+  else r ≠ "" ∧ r = a
+
+instance (r a : String) : Decidable (DocMatch r a) := by unfold DocMatch; exact inferInstance
+
+/-- every required attribute has a documented match among the account's attributes -/
 def AttrsOk (reqAttrs accAttrs : List String) : Prop :=
-  ∀ r ∈ reqAttrs, ∃ a ∈ accAttrs, isReqAttrMatch r a = true
+  ∀ r ∈ reqAttrs, ∃ a ∈ accAttrs, DocMatch r a
 
 instance (reqAttrs accAttrs : List String) : Decidable (AttrsOk reqAttrs accAttrs) := by
   unfold AttrsOk; exact inferInstance
+
+/-- the same with the code's matcher in the place of the documented rule (what
+`FindUnmatchedReqAttrs` computes for arbitrary strings, valid names or not) -/
+def AttrsMatched (reqAttrs accAttrs : List String) : Prop :=
+  ∀ r ∈ reqAttrs, ∃ a ∈ accAttrs, isReqAttrMatch r a = true
+
+instance (reqAttrs accAttrs : List String) : Decidable (AttrsMatched reqAttrs accAttrs) := by
+  unfold AttrsMatched; exact inferInstance
+
+/-- the names the documented rule speaks about: valid required attributes, valid account
+attribute names (the chain stores nothing else: `Market.Validate` / `ValidateReqAttrs`, and
+the name module's `IsValidName` for attribute names) -/
+def NamesOk (reqAttrs accAttrs : List String) : Prop :=
+  (∀ r ∈ reqAttrs, ReqOk r) ∧ ∀ a ∈ accAttrs, NameOk a
+
+instance (reqAttrs accAttrs : List String) : Decidable (NamesOk reqAttrs accAttrs) := by
+  unfold NamesOk; exact inferInstance
+
+/-- the pairs the wildcard rule speaks about: a wildcard is compared segment by segment, so
+both names must be well formed; an exact comparison needs nothing -/
+def MatchGuard (r a : String) : Prop := isWild r = true → ReqOk r ∧ NameOk a
+
+instance (r a : String) : Decidable (MatchGuard r a) := by unfold MatchGuard; exact inferInstance
+
+/-- every (required attribute, account attribute) pair is one the rule speaks about
+(implied by `NamesOk`) -/
+def PairsOk (reqAttrs accAttrs : List String) : Prop :=
+  ∀ r ∈ reqAttrs, ∀ a ∈ accAttrs, MatchGuard r a
+
+instance (reqAttrs accAttrs : List String) : Decidable (PairsOk reqAttrs accAttrs) := by
+  unfold PairsOk; exact inferInstance
+
+theorem NamesOk.pairsOk {reqAttrs accAttrs : List String} (h : NamesOk reqAttrs accAttrs) :
+    PairsOk reqAttrs accAttrs := fun r hr a ha _ => ⟨h.1 r hr, h.2 a ha⟩
+
+/-- **The required attributes without a documented match**, in the order of the market's
+list and with its multiplicities (what `FindUnmatchedReqAttrs` is documented to return). -/
+def docUnmatched (reqAttrs accAttrs : List String) : List String :=
+  reqAttrs.filter fun r => decide (¬ ∃ a ∈ accAttrs, DocMatch r a)
 
 /-- what the market *asked* to require, after name normalisation (names are case- and
 space-insensitive in the name module; account attributes carry normalised names) -/
